@@ -69,7 +69,11 @@ def kani_part(prop, tier, only, scratch_tag):
                 groups.setdefault(kani.classify(c, h, getattr(sc, "linemap", None)), []).append(c)
             # vacuity guard
             reach = groups.get("reach", [])
-            if not reach or any(c["status"].upper() != "SATISFIED" for c in reach):
+            by_desc = {}
+            for c in reach:
+                by_desc.setdefault(c["description"], []).append(c["status"].upper())
+            # (the compiler may duplicate a cover on several paths: one satisfied instance suffices)
+            if not reach or any("SATISFIED" not in sts_ for sts_ in by_desc.values()):
                 undecided.append("%s: reachability cover not satisfied (vacuous harness)" % h.name)
             # tool-planted checks
             tool_fail = [c for c in groups.get("tool", []) if c["status"].upper() == "FAILURE"]
